@@ -181,3 +181,151 @@ def compare(trace, expect, a):
                     if first is None:
                         first = {"script_line": sl, "op": ev["op"], "model": expect[sl], "real": got}
     return matched, drift, first
+
+
+# ----------------------------------------------------------------------------- two-world tour (WorldMC)
+
+def export_world_edges(consts):
+    cfg = os.path.join(BUILD, "tlc", "wtour-%s.cfg" % key_of(consts)[:8])
+    os.makedirs(os.path.dirname(cfg), exist_ok=True)
+    with open(cfg, "w") as f:
+        f.write("SPECIFICATION Spec\nCONSTANTS\n" + "".join("  %s = %s\n" % kv for kv in consts.items()) +
+                "  Edges = TRUE\nINVARIANTS RepInv CrossWorldSafe\nCHECK_DEADLOCK FALSE\n")
+    rc, out, dt = run_tlc("WorldMC", cfg=cfg, workers=8, timeout=3000)
+    if "No error has been found" not in out:
+        raise ToolError("WorldMC failed:\n" + out[-3000:])
+    edges = set()
+    for m in re.finditer(r'<<"WEDGE", "(.*)">>', out):
+        edges.add(json.dumps(json.loads(m.group(1).encode().decode("unicode_escape")), sort_keys=True))
+    return [json.loads(e) for e in sorted(edges)], tlc_stats(out)
+
+def world_real_edge(e):
+    if e["op"] != "create":
+        return True
+    w = e["arg"][0] - 1
+    f, t = e["from"][w][1], e["to"][w][1]
+    return not (f["len"] >= f["cap"] and t["cap"] != 2 * (f["cap"] + 1))
+
+def plan_world_paths(edges, init_caps, max_len=30):
+    inits = []
+    for c in init_caps:
+        inits.append([["world", new_state(c)], ["none"]])
+    # reuse plan_paths with explicit initial nodes
+    adj = {}
+    for i, e in enumerate(edges):
+        adj.setdefault(skey(e["from"]), []).append(i)
+    init_keys = [skey(s) for s in inits]
+    return _plan(edges, adj, init_keys, max_len)
+
+def _plan(edges, adj, inits, max_len):
+    uncovered = set(range(len(edges)))
+    paths = []
+    def bfs(start):
+        seen = {start: None}
+        dq = deque([start])
+        while dq:
+            n = dq.popleft()
+            if any(i in uncovered for i in adj.get(n, [])):
+                seq = []
+                while seen[n] is not None:
+                    p, ei = seen[n]
+                    seq.append(ei)
+                    n = p
+                return list(reversed(seq))
+            for ei in adj.get(n, []):
+                t = skey(edges[ei]["to"])
+                if t not in seen:
+                    seen[t] = (n, ei)
+                    dq.append(t)
+        return None
+    guard = 0
+    while uncovered and guard < 100000:
+        guard += 1
+        best = None
+        for s in inits:
+            seq = bfs(s)
+            if seq is not None and (best is None or len(seq) < len(best[1])):
+                best = (s, seq)
+        if best is None:
+            break
+        node, path = best[0], list(best[1])
+        for ei in path:
+            node = skey(edges[ei]["to"])
+        while len(path) < max_len:
+            nxt = [i for i in adj.get(node, []) if i in uncovered]
+            if nxt:
+                ei = nxt[0]
+            else:
+                seq = bfs(node)
+                if not seq or len(path) + len(seq) > max_len:
+                    break
+                for x in seq[:-1]:
+                    path.append(x)
+                ei = seq[-1]
+            path.append(ei)
+            uncovered.discard(ei)
+            node = skey(edges[ei]["to"])
+        for ei in path:
+            uncovered.discard(ei)
+        paths.append(path)
+    return paths, len(uncovered)
+
+def render_world(edges, paths, a):
+    lines, expect = [], {}
+    aid = ARCH_IDS[a]
+    counter = 0
+    for path in paths:
+        lines.append("reset")
+        first = edges[path[0]]["from"]
+        caps = [0, 0, 0, 0]
+        caps[a] = first[0][1]["cap"]
+        lines.append("init 0 %d %d %d %d" % tuple(caps))
+        expect[len(lines)] = first
+        issued = {}
+        nh = 0
+        for ei in path:
+            e = edges[ei]
+            counter += 1
+            if e["op"] == "create":
+                w, room = e["arg"]
+                t = e["to"][w - 1][1]
+                lines.append("create %d %d %d %d" % (w - 1, a, counter % 4, 1 if (room and counter % 2) else 0))
+                new = tuple(t["dense"][-1])
+                issued[new] = nh
+                nh += 1
+            elif e["op"] == "destroy":
+                w, pos, gen = e["arg"]
+                kd, lv = KINDS[counter % 4]
+                key = "H%d" % issued[(pos, gen)] if (pos, gen) in issued else "R:%d:%d:%d" % (aid, pos, gen)
+                lines.append("destroy %d %s %s %s" % (w - 1, key, kd, lv))
+            elif e["op"] in ("clone", "clone_from"):
+                lines.append("%s %d %d" % (e["op"], e["arg"][0] - 1, e["arg"][1] - 1))
+            elif e["op"] == "drop":
+                lines.append("drop %d" % (e["arg"][0] - 1))
+            expect[len(lines)] = e["to"]
+    return lines, expect
+
+def compare_world(trace, expect, a):
+    matched = drift = 0
+    first = None
+    with open(trace) as f:
+        for line in f:
+            if '"sl":' not in line:
+                continue
+            ev = json.loads(line)
+            sl = ev.get("sl", -1)
+            if sl not in expect:
+                continue
+            want = expect[sl]
+            got = [["none"], ["none"]]
+            for o in ev.get("obs", []):
+                x = o["ar"][a]
+                if o["w"] < 2:
+                    got[o["w"]] = ["world", dump_to_model(x["dump"], x["cap"], x["len"])]
+            if got == want:
+                matched += 1
+            else:
+                drift += 1
+                if first is None:
+                    first = {"script_line": sl, "op": ev["op"], "model": want, "real": got}
+    return matched, drift, first
